@@ -4,7 +4,8 @@
    payload or QUIC CRYPTO data) - must be a syntactically valid ClientHello: TLSWire!ValidClientHello (framing,
    every length prefix, no repeated extension, pre_shared_key last, each known body under its RFC grammar) plus
    the RFC 6066 rules for the host name that ValidBody does not state (no IP literal, no trailing dot; the name is
-   the configured one).  Nothing is required when an error (or a panic) kept the library from emitting anything.
+   the configured one).  The same holds for every later Raw (marshal after an edit of the built hello) and
+   for the second ClientHello after a HelloRetryRequest.  Nothing is required when an error (or a panic) kept the library from emitting anything.
    The case (source, Config variation) is looked up in the scenario file the runner wrote (c02_scn.json). *)
 EXTENDS ExtCodec
 Scn == JsonDeserialize("c02_scn.json")
@@ -24,12 +25,20 @@ HelloProblems(s, cfgsni, tag) ==
   ELSE { <<tag, WhyInvalid(s)>> }
 
 RawEmitted(ev) == ev.built /\ ev.raw # <<>>
+Raw2Emitted(ev) == ev.edited /\ ev.raw2 # <<>>           \* the hello marshaled again after an edit of the built state
 WireJudged(ev) == ev.onwire /\ ~ev.wiresame
+Wire2Judged(ev) == ev.nwire >= 2 /\ ev.wire2 # <<>>       \* the second ClientHello, after a HelloRetryRequest
+\* sc.cfg.sni: the configured name; sc.cfg.sni2: the name in force after the case's edit (= sni without an edit)
 Judge02(sc, ev) ==
   [bad |-> (IF RawEmitted(ev) THEN HelloProblems(ev.raw, sc.cfg.sni, "raw") ELSE {})
-           \cup (IF WireJudged(ev) THEN HelloProblems(ev.wire, sc.cfg.sni, "wire") ELSE {}),
+           \cup (IF Raw2Emitted(ev) THEN HelloProblems(ev.raw2, sc.cfg.sni2, "raw2") ELSE {})
+           \cup (IF WireJudged(ev) THEN HelloProblems(ev.wire, sc.cfg.sni2, "wire") ELSE {})
+           \cup (IF Wire2Judged(ev) THEN HelloProblems(ev.wire2, sc.cfg.sni2, "wire2") ELSE {}),
    tags |-> (IF RawEmitted(ev) THEN {"raw-judged"} ELSE {})
+            \cup (IF Raw2Emitted(ev) THEN {"remarshal-judged:" \o sc.edit} ELSE {})
             \cup (IF WireJudged(ev) THEN {"wire-judged"} ELSE {})
+            \cup (IF Wire2Judged(ev) THEN {"hrr-second-hello-judged"} ELSE {})
+            \cup (IF Wire2Judged(ev) /\ ValidClientHello(ev.wire2) /\ HasExtT(ParseHello(ev.wire2), 44) THEN {"hrr-cookie-echoed"} ELSE {})
             \cup (IF ev.onwire /\ ev.wiresame THEN {"wire-same-as-raw"} ELSE {})
             \cup (IF ~RawEmitted(ev) /\ ~ev.onwire THEN {"nothing-emitted:" \o ev.stage} ELSE {})
             \cup (IF ev.panic # "" THEN {"panic"} ELSE {})
